@@ -271,6 +271,7 @@ func (t *translator) innerRange(x *ast.RangeStmt, ev *env, cont func(*env) strin
 	t.nLoop++
 	loopName := t.fn + "_loop" + strconv.Itoa(t.nLoop)
 	use := used([]ast.Node{x.Body})
+	redecl := t.redeclared([]ast.Node{x.Body})
 	isCarried := map[string]bool{}
 	for _, v := range carried {
 		isCarried[v.name] = true
@@ -286,7 +287,7 @@ func (t *translator) innerRange(x *ast.RangeStmt, ev *env, cont func(*env) strin
 		isPar[v] = true
 	}
 	for _, v := range ev.vars {
-		if v.kind == 1 && !isPar[v] && !isCarried[v.name] && use[v.name] && ev.index[v.name] == v {
+		if v.kind == 1 && !isPar[v] && !isCarried[v.name] && use[v.name] && ev.index[v.name] == v && !redecl[v.name] {
 			fixed = append(fixed, v)
 		}
 	}
